@@ -266,6 +266,7 @@ func main() {
 		}
 	}
 	ev.wall = time.Since(t0).Seconds()
+	ev.partial = *only != ""
 	if err := ev.write(); err != nil {
 		fmt.Println("INFRA cannot write evidence:", err)
 		infra = true
